@@ -570,17 +570,20 @@ def run(prog, rep, tier):
         rep.examined(R35, str(s_)[:70], sample=s_)
 
     # ---------------- R3.10 (lifted from C14 R14.10/R14.2): the bounds A and B themselves are the ones the user wrote
-    R310 = rep.rule("R3.10", "the window bounds are resolved from the arguments without losing sub-second digits or the has_time/has_tz completion (lifted from C14 R14.2, R14.10)")
+    R310 = rep.rule("R3.10", "the window bounds are resolved from the arguments without losing sub-second digits or the has_time/has_tz completion, equal bounds are a valid window, relative bounds keep their base (lifted from C14 R14.2, R14.3, R14.5, R14.10)")
     import c14 as _c14
     _sub14 = _Rep("C14", "quick", dict(rep.meta))
     _sub14.finish = lambda *a, **k: 0
     with _cl.redirect_stdout(_io.StringIO()):
         _c14.run(prog, _sub14, "quick")
+    # R14.3: a window with A == B is accepted (both bounds are inclusive; only A > B is rejected);
+    # R14.5: a bound written relative to the other bound / to the program start is resolved from that base unaltered
+    L310 = ("R14.10", "R14.2", "R14.3", "R14.5")
     for (rid_, key_, what_, det_) in _sub14.violations:
-        if rid_ in ("R14.10", "R14.2"):
-            rep.violation(R310, key_.split("|", 1)[1] if "|" in key_ else key_, what_)
+        if rid_ in L310:
+            rep.violation(R310, (key_.split("|", 1)[1] if "|" in key_ else key_) + ("" if rid_ in ("R14.10", "R14.2") else "|" + rid_), what_)
     n310 = 0
-    for rid_ in ("R14.10", "R14.2"):
+    for rid_ in L310:
         for k_ in _sub14.rules.get(rid_, {}).get("keys", []):
             n310 += 1
             rep.examined(R310, "%s|%s" % (rid_, str(k_)[:80]), sample={"rule": rid_, "instance": str(k_)[:120]})
